@@ -8,8 +8,8 @@ from lib import gen_net
 from gen import c14_revision, c14_nets
 
 ID = "C14"
-PROPS_FILES = ["Gama/Props/C14.lean"]
-LEAN_TARGETS = ["Gama.Props.C14"]
+PROPS_FILES = ["Gama/Props/C14.lean", "Gama/Props/C14PeWitness.lean"]
+LEAN_TARGETS = ["Gama.Props.C14", "Gama.Props.C14PeWitness"]
 DRIVERS = ["drv_revise"]
 RULE = ("generated 2D/3D networks (directions, distances, angles, azimuths, slope distances, zenith angles, height "
         "differences, vectors; stdev varied against sigma-apr) with injected defects: isolated point, point with one "
